@@ -1,3 +1,4 @@
+import itertools
 """Shared machinery of the checks: build the harness from /repo's working tree, run TLC on model
 configurations, record traces with the harness, validate them with TLC run by run, classify
 rejections against known_findings.txt, write evidence."""
@@ -267,7 +268,8 @@ def record_and_validate(pid, wd, module, jobs, verdict, par=6):
         stats = json.load(open(trace + ".stats.json"))
         r = validate_trace(module, trace, wd, pid, tag)
         with open(trace) as f:
-            sample = [json.loads(next(f)) for _ in range(4) if True]
+            # (a trace can be as short as one line: a driver that hung before it recorded anything)
+            sample = [json.loads(x) for x in itertools.islice(f, 4)]
         os.unlink(trace)
         return tag, stats, r, sample
 
